@@ -881,6 +881,27 @@ theorem drops_live (ds : List Fid) {s : St} (h : Inv s) {fu : Fut} :
     · rintro ⟨⟨a, b⟩, c⟩; exact ⟨a, b, c⟩
     · rintro ⟨a, b, c⟩; exact ⟨⟨a, b⟩, c⟩
 
+theorem nodup_of_map {α β} (f : α → β) {l : List α} (h : (l.map f).Nodup) : l.Nodup := by
+  rw [List.Nodup, List.pairwise_map] at h
+  exact h.imp (fun {a b} (hab : f a ≠ f b) (he : a = b) => hab (he ▸ rfl))
+
+theorem drops_frame (ds : List Fid) (s : St) :
+    (ds.foldl St.drop s).inbox = s.inbox ∧ (ds.foldl St.drop s).slots = s.slots := by
+  induction ds generalizing s with
+  | nil => exact ⟨rfl, rfl⟩
+  | cons d ds ih =>
+    simp only [List.foldl_cons]
+    rw [(ih (s.drop d)).1, (ih (s.drop d)).2]
+    exact ⟨(drop_frame s d).2.1, (drop_frame s d).1⟩
+
+theorem drops_live_length (ds : List Fid) {s : St} (h : Inv s) : (ds.foldl St.drop s).live.length ≤ s.live.length := by
+  have hnd : (ds.foldl St.drop s).live.Nodup :=
+    (nodup_of_map _ (drops_inv ds h).1.fidNodup).sublist List.filter_sublist
+  exact List.Nodup.length_le_of_subset hnd (fun fu hfu => ((drops_live ds h).mp hfu).1)
+
+theorem drops_run (ds : List Fid) (s : St) : ds.foldl St.drop s = s.run (ds.map .drop) := by
+  simp only [St.run, List.foldl_map]; rfl
+
 /-! ## after a message that fails phase 1 -/
 
 /-- the state after `f` took the bad message `m` off the transport is clean provided the rest of the
